@@ -17,6 +17,7 @@ import TonVerif.Drv.Heap
 import TonVerif.Drv.Address
 import TonVerif.Drv.VmStack
 import TonVerif.Drv.Cost
+import TonVerif.Drv.Tl
 
 open TonVerif TonVerif.Drv
 
@@ -34,6 +35,7 @@ def handlers : List (String → List String → Option String) := [
   Address.handle?,
   VmStack.handle?,
   Cost.handle?
+  Tl.handle?
 ]
 
 def handle (op : String) (args : List String) : String :=
